@@ -111,7 +111,9 @@ def juniper_nonrandom_encrypt(plain: str, salt: str = None) -> str:
     Returns:
       String representing the encrypted secret.
     """
-    if salt is None:
+    # Only characters of the $9$ alphabet can serve as salt; fall back to the
+    # fixed salt for anything else (e.g. an arbitrary netconan salt string)
+    if not salt or salt[0] not in EXTRA:
         salt = _fixedc(1)
     salt = salt[0]
     rand = _fixedc(EXTRA[salt])
